@@ -297,122 +297,38 @@ def check_order(P, ctx):
 
 
 def check_sweep(P, ctx):
+    """the sweep, evaluated on small registries (gcmodel.eval_sweep): every combination of root / marked / neither for pointers whose
+    home slots collide and wrap.  One verdict, reported under the aspect it concerns."""
     rule = 'C06.sweep-once'
-    fn = P.fn('GC_Sweep')
-    g = P.cfg(fn)
-    ctx.fn(fn)
-    N = util.Norm(P, fn)
-    NX = util.Norm(P, fn, expand_locals=True)
-    # (1) pending-list appends: store freelist[freenum] = entries[i].ptr, followed by freenum++ and nitems--
-    appends, decs, incs, fins = [], [], [], []
-    for n in g.live():
-        if n['expr'] is None:
-            continue
-        for ev in util.expr_events(n['expr'], n):
-            if ev['t'] == 'write':
-                lhs = N.canon(ev['lhs'])
-                if lhs[0] == 'idx' and lhs[1] == ('arrow', ('param', 0), 'freelist') and ev['rhs'] is not None and not ir.is_null(ev['rhs']):
-                    appends.append((n, lhs, NX.canon(ev['rhs'])))
-                if lhs == ('arrow', ('param', 0), 'nitems') and ev['op'] in ('--',):
-                    decs.append(n)
-                if lhs == ('arrow', ('param', 0), 'freenum') and ev['op'] == '++':
-                    incs.append(n)
-            if ev['t'] == 'call' and ev['name'] == 'dealloc':
-                fins.append((n, ev))
-    ok = len(appends) == 1 and len(decs) == 1 and len(incs) == 1
-    if ok:
-        an, lhs, rhs = appends[0]
-        ok = lhs[2] == ('arrow', ('param', 0), 'freenum') and rhs[0] in ('arrow', 'dot') and rhs[2] == 'ptr'
-        # each pass through the append passes the count updates before the next loop test / exit
-        ok = ok and g.must_pass(g.exit, [incs[0]['id']], start=an['id']) and g.must_pass(g.exit, [decs[0]['id']], start=an['id'])
-        # and the append is reached again only after both (no double append per entry)
-        nxt = [v for v, _ in an['succ']]
-        ok = ok and all(an['id'] not in g.reach_from(v, cut_nodes=[incs[0]['id']]) for v in nxt) \
-            and all(an['id'] not in g.reach_from(v, cut_nodes=[decs[0]['id']]) for v in nxt)
-    ctx.check(ok, rule, 'GC_Sweep:append', site(fn), 'each reclaimed entry is appended once at freelist[freenum], with freenum++ and nitems-- before the scan continues')
-    # (2) guard of the append: hash != 0, not marked, not root
-    if len(appends) == 1:
-        an = appends[0][0]
-        need = {'hash': False, 'marked': False, 'root': False}
-        for fld in list(need):
-            for n in g.live():
-                if n['kind'] != 'cond':
-                    continue
-                c = N.canon(n['expr'])
-                pol = None
-                if c[0] in ('arrow', 'dot') and c[2] == fld:
-                    pol = False if fld != 'hash' else True        # the append needs marked/root false; hash true(non-zero)
-                elif c[0] == 'bin' and c[1] in ('==', '!=') and any(x[0] in ('arrow', 'dot') and x[2] == fld for x in ir.walk(c)) and ('int', 0) in (c[2], c[3]):
-                    nz = (c[1] == '!=')
-                    pol = nz if fld == 'hash' else (not nz)
-                if pol is None:
-                    continue
-                if g.must_pass(an['id'], through_edges=[(n['id'], pol)]) and an['id'] not in g.reach_from(g.entry, cut_edges=[(n['id'], pol)]):
-                    need[fld] = True
-        ctx.check(all(need.values()), rule, 'GC_Sweep:guard', site(fn, an['line']),
-                  'an entry is reclaimed only if it is occupied, unmarked and not a root (guards found: %s)' % need)
-    # (3) final loop: visits freelist[0..freenum) and finalises the non-null ones
-    ok = len(fins) == 1
-    if ok:
-        fnode, ev = fins[0]
-        a = ir.top_nocast(ev['args'][0])
-        tgt = N.canon(a[2][0]) if a[0] == 'call' and ir.callee_name(a) == 'destruct' else None
-        ok = tgt is not None and tgt[0] == 'idx' and tgt[1] == ('arrow', ('param', 0), 'freelist') and tgt[2][0] == 'local'
-        if ok:
-            iv = tgt[2]
-            # loop: iv from 0, while iv < freenum, iv++
-            conds = [n for n in g.live() if n['kind'] == 'cond' and N.canon(n['expr']) == ir.canon(('bin', '<', iv, ('arrow', ('param', 0), 'freenum')))]
-            steps = [n for n in g.live() if n.get('loop_inc') and N.canon(n['expr']) in (('un', 'post++', iv), ('un', 'pre++', iv))]
-            raw_iv = [x for x in ir.walk(a[2][0]) if x[0] == 'local' and x[1] == iv[1]]
-            iv_id = raw_iv[0][2] if raw_iv else None
-            inits = [n for n in g.live() if n.get('decl') and n['decl']['id'] == iv_id and util.const_int(n['decl']['init']) == 0]
-            steps = [n for n in steps if any(x[0] == 'local' and x[2] == iv_id for x in ir.walk(n['expr']))]
-            conds = [n for n in conds if any(x[0] == 'local' and x[2] == iv_id for x in ir.walk(n['expr']))]
-            nn = [n for n in g.live() if n['kind'] == 'cond' and N.canon(n['expr']) == tgt]
-            ok = len(conds) == 1 and len(steps) >= 1 and len(inits) >= 1 and len(nn) == 1 and \
-                g.must_pass(fnode['id'], through_edges=[(nn[0]['id'], True)]) and \
-                g.must_pass(fnode['id'], through_edges=[(conds[0]['id'], True)])
-            # nothing in the loop body skips an index: from the loop test's true edge, every path back to the test passes the step
-            if ok:
-                body_start = [v for v, l in conds[0]['succ'] if l is True][0]
-                ok = conds[0]['id'] not in g.reach_from(body_start, cut_nodes=[s['id'] for s in steps])
-                # the pending loop runs after the scan loop
-                ok = ok and g.must_pass(conds[0]['id'], [n['id'] for n in g.live() if n['kind'] == 'cond' and
-                                                         N.canon(n['expr']) == ir.canon(('bin', '<', ('local', 'i'), ('arrow', ('param', 0), 'nslots')))][:1] or [g.entry])
-    ctx.check(ok, rule, 'GC_Sweep:finalise-pending', site(fn), 'the final loop visits freelist[0..freenum) in steps of one and finalises every non-null entry with dealloc(destruct(.))')
-    # (5) compaction: after an entry is removed and the cluster behind it shifted back, the same slot is
-    # examined again (the scan index is not advanced on the removing path)
-    if len(appends) == 1:
-        an = appends[0][0]
-        scan_conds = [n for n in g.live() if n['kind'] == 'cond' and any(x[0] in ('arrow', 'dot') and x[2] == 'nslots' for x in ir.walk(n['expr'])) and
-                      an['id'] in g.reach_from(n['id']) and n['id'] in g.reach_from(an['id'])]
-        ok5 = len(scan_conds) == 1
-        if ok5:
-            raw = ir.nocast(NX.norm(appends[0][0]['expr']))
-            idxv = [x for x in ir.walk(raw) if x[0] == 'idx' and util.mentions_field(x[1], 'entries')]
-            iv = ir.top_nocast(idxv[0][2]) if idxv else None
-            between = g.reach_from(an['id'], cut_nodes=[scan_conds[0]['id']])
-            adv = []
-            for i in between:
-                x = g.nodes[i]
-                if x['expr'] is None:
-                    continue
-                for ev in util.expr_events(x['expr'], x):
-                    if ev['t'] == 'write' and iv is not None and ir.top_nocast(ev['lhs']) == iv:
-                        adv.append(x)
-            ok5 = iv is not None and iv[0] == 'local' and not adv
-        ctx.check(ok5, rule, 'GC_Sweep:rescan-after-removal', site(fn, an['line']),
-                  'removing an entry shifts the following cluster back into the same slot, so the scan must look at that slot again before advancing; '
-                  'otherwise the entry that moved in is neither reclaimed nor kept for a later sweep (left behind at teardown)',
-                  ['scan index advanced at: %s' % g.describe(adv[0])] if ok5 is False and 'adv' in dir() and adv else None)
-    # (6) pending-list protocol between the sweep and a re-entrant del: an entry that is still visible on the
-    # pending list must not be finalised by both sides
-    rp = P.fn('GC_Rem_Ptr')
-    # (what a deletion does for a pointer that stands on the pending list is evaluated on a small registry: gcmodel)
     from . import gcmodel
+    fn = P.fn('GC_Sweep')
+    ctx.fn(fn)
+    bad, unsup, ncase = gcmodel.eval_sweep(P)
+    ctx.stats['paths'] += ncase
+    aspects = (('GC_Sweep:guard', 'exactly the entries that are occupied, unmarked and not roots are reclaimed; roots and marked pointers stay registered with their flags, marks cleared'),
+               ('GC_Sweep:rescan-after-removal', 'after an entry is reclaimed and the cluster behind it shifted back, the entry that moved into its slot is examined too: every pointer stays findable and none is skipped'),
+               ('GC_Sweep:append', 'every reclaimed pointer is put on the pending list once and the count is decremented once per reclaimed pointer'),
+               ('GC_Sweep:finalise-pending', 'every pending pointer is finalised once (dealloc(destruct(p))), nothing else is, and the list is released afterwards with its length reset'),
+               ('GC_Sweep:pending-capacity', 'the pending list has room for every pointer put on it'))
+    which = None
+    if bad:
+        which = ('GC_Sweep:finalise-pending' if ('finalises' in bad or 'released' in bad) else
+                 'GC_Sweep:pending-capacity' if 'pending list is written' in bad else
+                 'GC_Sweep:append' if 'the count is' in bad else
+                 'GC_Sweep:rescan-after-removal' if ('sits in slot' in bad or 'does not end' in bad) else 'GC_Sweep:guard')
+    for key, text in aspects:
+        if unsup and not bad:
+            ctx.undecided(rule, key, site(fn), 'the sweep leaves the evaluated fragment: ' + unsup)
+        else:
+            ctx.check(key != which, rule, key, site(fn), text + ' (%d registries evaluated)' % ncase, [bad] if key == which else None)
+    # pending-list protocol between the sweep and a re-entrant del: an entry that is still visible on the pending list must not be
+    # finalised by both sides (what a deletion does for a pointer that stands on the pending list is evaluated: gcmodel)
+    rp = P.fn('GC_Rem_Ptr')
+    g = P.cfg(fn)
     pend = gcmodel.eval_registry(P).get('pending_rem') or ''
     both = pend.startswith('finalised') or pend.startswith('other')
     cleared_first = False
+    fins = [(n, ev) for n in g.live() if n['expr'] is not None for ev in util.expr_events(n['expr'], n) if ev['t'] == 'call' and ev['name'] == 'dealloc']
     if len(fins) == 1:
         fnode, ev = fins[0]
         # does the sweep clear freelist[i] before finalising it?
@@ -422,14 +338,6 @@ def check_sweep(P, ctx):
     ctx.check((not both) or cleared_first, rule, 'pending-list-protocol', site(rp),
               'a deletion that finds its pointer on the sweep\'s pending list may finalise it itself only if the sweep clears each pending entry before '
               'finalising it; otherwise an object swept before its owner is finalised by the sweep and again by the owner\'s destructor')
-    # (4) the list is sized for all entries and released afterwards
-    re = [c for n in g.live() if n['expr'] is not None for c in ir.calls(n['expr']) if ir.callee_name(c) == 'realloc']
-    ok = len(re) == 1 and N.canon(re[0][2][0]) == ('arrow', ('param', 0), 'freelist')
-    if ok:
-        from . import poly
-        sz = poly.from_expr(N.canon(re[0][2][1]))
-        ok = sz == poly.Poly.const(8) * poly.Poly.atom('arg0->nitems')
-    ctx.check(ok, rule, 'GC_Sweep:pending-capacity', site(fn), 'the pending list has room for every registered entry (sizeof(var) * nitems)')
     ctx.floor(rule, 6)
 
 
